@@ -222,6 +222,7 @@ def check_no_panic(ctx, rep, tier):
         if f['vis'] != 'pub' and not f.get('impl_trait'):
             continue   # private helpers are covered where they are inlined
         if f.get('impl_trait') in ('core::ops::Drop', 'Drop'):
+            covered_fns.add(f['path'])
             continue   # executed as drop glue inside the bodies that drop the value
         if (f.get('impl_trait') or '').startswith('core::fmt::'):
             continue   # formatting impls call into core::fmt (outside the statement's list of operations)
